@@ -229,6 +229,8 @@ class FlowEmit:
                     return self.block([("expr", tail)], None, env, M, ind)
                 if tail[0] == "mcall" and self.is_effect(tail):
                     return self.block([("expr", tail)], None, env, M, ind)
+                if tail[0] == "mcall" and tail[1] == ("path", ["self"]) and ("self." + tail[2]) in self.spec.get("update_calls", {}):
+                    return self.block([("expr", tail)], None, env, M, ind)
                 if self.spec.get("effect_calls") or self.spec.get("hoist_index"):
                     return self.block([("return", tail)], None, env, M, ind)
                 t, ty = self.ex(tail, env)
